@@ -101,3 +101,9 @@ Theorem C04_code_block_read_back : forall lang extra fc flen content st rest,
     = Some (Fenced fc (fence_len fc flen content) (info_of lang extra) (code_lines content), rest).
 Proof. exact code_block_roundtrip. Qed.
 Print Assumptions C04_code_block_read_back.
+
+(* the language word of a code fence (and every destination and title) is handed over by the parser
+   with backslash escapes removed; what the renderer writes gives it back exactly *)
+Theorem C04_escapes_undone : forall s, strip_backslash (escape_backslashes s) = s.
+Proof. exact strip_escape_backslashes. Qed.
+Print Assumptions C04_escapes_undone.
